@@ -85,11 +85,13 @@ Theorem C16_v1_publish_nonblocking : forall C cv cap (st : V1.state C) m,
     /\ V1.rxcnt C st' = V1.rxcnt C st.
 Proof. exact V1Proofs.publish_nonblocking. Qed.
 
-(* ---------------- v2 port (the public port: allow_duplicate_subscription = true) *)
+(* ---------------- v2 port, for both values `ad` of allow_duplicate_subscription (the public
+   port uses true; with false a new subscription of an actor replaces that actor's previous
+   one at its position in the batch: abstract label ADrop for the replaced subscription) *)
 
 (* (7) every run of the v2 port projected on one subscription is a run of Sub1 without a ring *)
-Theorem C16_v2_refines_sub1 : forall C cv ls st s a c,
-  V2.run C cv true (V2.init C) ls = Some st -> V2.conv_of C s ls = Some (a, c) ->
+Theorem C16_v2_refines_sub1 : forall C cv ad ls st s a c,
+  V2.run C cv ad (V2.init C) ls = Some st -> V2.conv_of C s ls = Some (a, c) ->
   crun None (cv c) ainit (V2.projs C s a ls) = Some (V2.absv C s a st).
 Proof. exact V2Proofs.v2_refines. Qed.
 
@@ -97,8 +99,8 @@ Proof. exact V2Proofs.v2_refines. Qed.
    messages published after the subscription (equal up to the subscriber's stop), and while
    the port still serves s and its actor lives: received ++ mailbox ++ not yet dispatched
    = everything owed (so at quiescence received = everything owed) *)
-Theorem C16_v2_exact : forall C cv ls st s a c,
-  V2.run C cv true (V2.init C) ls = Some st -> V2.conv_of C s ls = Some (a, c) ->
+Theorem C16_v2_exact : forall C cv ad ls st s a c,
+  V2.run C cv ad (V2.init C) ls = Some st -> V2.conv_of C s ls = Some (a, c) ->
   prefix (V2.received C st s a) (filter_map (cv c) (V2.pubs_after C s ls))
   /\ (let x := V2.absv C s a st in active x = true -> c_alive x = true ->
       c_got x ++ c_mbox x ++ filter_map (cv c) (held x ++ c_backlog x)
@@ -106,15 +108,15 @@ Theorem C16_v2_exact : forall C cv ls st s a c,
 Proof. exact V2Proofs.v2_exact. Qed.
 
 (* (9) v2: other subscribers (stopping, being removed on a failed send, subscribing) are inert *)
-Theorem C16_v2_dead_subscriber_inert : forall C cv ls1 ls2 st1 st2 s a c,
-  V2.run C cv true (V2.init C) ls1 = Some st1 -> V2.run C cv true (V2.init C) ls2 = Some st2 ->
+Theorem C16_v2_dead_subscriber_inert : forall C cv ad ls1 ls2 st1 st2 s a c,
+  V2.run C cv ad (V2.init C) ls1 = Some st1 -> V2.run C cv ad (V2.init C) ls2 = Some st2 ->
   V2.conv_of C s ls1 = Some (a, c) -> V2.conv_of C s ls2 = Some (a, c) ->
   V2.projs C s a ls1 = V2.projs C s a ls2 ->
   V2.absv C s a st1 = V2.absv C s a st2.
 Proof. exact V2Proofs.v2_inert. Qed.
 
-Theorem C16_v2_publish_nonblocking : forall C cv (st : V2.state C) m,
-  exists st', V2.step C cv true st (V2.LPublish m) = Some st'
+Theorem C16_v2_publish_nonblocking : forall C cv ad (st : V2.state C) m,
+  exists st', V2.step C cv ad st (V2.LPublish m) = Some st'
     /\ V2.queue C st' = V2.queue C st ++ [V2.Data m] /\ V2.batch C st' = V2.batch C st
     /\ V2.dp C st' = V2.dp C st /\ V2.subscribers C st' = V2.subscribers C st
     /\ V2.actors C st' = V2.actors C st.
@@ -158,8 +160,8 @@ Proof. exact is_prefix_sound. Qed.
 Check (C16_v1_subsequence : forall C cv cap ls st s a c,
   V1.run C cv cap (V1.init C) ls = Some st -> V1.conv_of C s ls = Some (a, c) ->
   sublist (V1.received C st s) (filter_map (cv c) (V1.pubs_after C s ls))).
-Check (C16_v2_exact : forall C cv ls st s a c,
-  V2.run C cv true (V2.init C) ls = Some st -> V2.conv_of C s ls = Some (a, c) ->
+Check (C16_v2_exact : forall C cv ad ls st s a c,
+  V2.run C cv ad (V2.init C) ls = Some st -> V2.conv_of C s ls = Some (a, c) ->
   prefix (V2.received C st s a) (filter_map (cv c) (V2.pubs_after C s ls))
   /\ (let x := V2.absv C s a st in active x = true -> c_alive x = true ->
       c_got x ++ c_mbox x ++ filter_map (cv c) (held x ++ c_backlog x)
@@ -211,6 +213,22 @@ Example ex_starting_queued :
      = [[0; 1; 2; 3; 4; 5; 6]; [0; 1; 2; 3; 4; 5; 6]]
   /\ X1.result 16 (mkScen [] (sc_ops ex_starting ++ [OFailStart 0] ++ burst 5 2 ++ [OSettle]))
      = [[]; [0; 1; 2; 3; 4; 5; 6]].
+Proof. vm_compute. repeat split; reflexivity. Qed.
+
+(* allow_duplicate_subscription = false: the second subscription of actor 0 replaces the first
+   at its position in the batch (the situation of the crate's unit test
+   replacement_subscription_takes_effect_at_batch_position): subscription 0 receives 1,
+   subscription 1 receives 2 *)
+Example ex_v2_replace :
+  match V2.run cspec cv false (V2.init cspec)
+          [V2.LStart 0; V2.LSubscribe 0 0 ex_all; V2.LPublish 1; V2.LSubscribe 1 0 ex_all; V2.LPublish 2;
+           V2.LTake 4; V2.LCtl; V2.LApply None; V2.LCtl; V2.LCtl; V2.LSend 0; V2.LCtl; V2.LCtl;
+           V2.LApply (Some 0); V2.LCtl; V2.LCtl; V2.LSend 1; V2.LCtl; V2.LCtl; V2.LCtl;
+           V2.LHandle 0 0; V2.LHandle 0 1] with
+  | Some st => V2.received cspec st 0 0 = [1] /\ V2.received cspec st 1 0 = [2]
+               /\ c_pc (V2.absv cspec 0 0 st) = ADone /\ c_pc (V2.absv cspec 1 0 st) = AIdle
+  | None => False
+  end.
 Proof. vm_compute. repeat split; reflexivity. Qed.
 
 (* the hypotheses of C16_v2_exact's second part are met: subscription 0 of the example is
